@@ -3,6 +3,7 @@
    binary64 values (Coq's primitive floats), not about real numbers. *)
 From Coq Require Import List ZArith.
 From SR Require Import Model.Attr Proofs.AttrProofs.
+From SR Require Proofs.FormulasAttrProofs.
 Import ListNotations.
 
 (* For every list of valid calls (finite amounts / ratios / floors, positive finite max HP,
@@ -30,6 +31,15 @@ Print Assumptions C07_first_event_reports_the_registered_value.
 Theorem C07_clamp_in_range : clamp_statement.
 Proof. exact clampTo_range. Qed.
 Print Assumptions C07_clamp_in_range.
+
+(* The translator tie: the clamps and updates of AddTarget, SetHP, ModifyHPByAmount, ModifyHPByRatio,
+   SetStance, ModifyStance, SetEnergy, ModifyEnergy, ModifyEnergyFixed, ModifySP and the initial skill
+   points are EQUAL, at binary64, to the definitions go2coq generates from attribute/add.go,
+   attribute/modify.go and attribute/attribute.go (Gen/FormulasAttr.v; the conjunction is spelled
+   out in Proofs/FormulasAttrProofs.v, C07_formulas_statement). *)
+Theorem C07_model_formulas_are_the_source : FormulasAttrProofs.C07_formulas_statement.
+Proof. exact FormulasAttrProofs.C07_formulas_hold. Qed.
+Print Assumptions C07_model_formulas_are_the_source.
 
 (* a valid history with a floor crossing, a death, a break, a no-op, a reset, clamped energy
    and clamped skill points: 10 events, HP events (1 -> 0.5), (0.5 -> 0), one break, one reset *)
